@@ -95,6 +95,8 @@ type ddKey struct {
 	subcomm                   []uint64
 	roots                     []eth2p0.Root
 	put                       bool
+	orig                      core.UnsignedData // pristine copy of the datum (re-stored by later writers when cfg same=true)
+	canon                     string            // the writer whose key this is (w1 for re-stores)
 }
 
 type dutydbC struct {
@@ -105,6 +107,17 @@ type dutydbC struct {
 
 func (c *dutydbC) New(r *run, w string) any {
 	typ, n := drv.Str(r.cfg["typ"]), drv.Num(r.cfg["n"])
+	if first, ok := c.keys["w1"]; ok && w != "w1" && r.cfg["same"] == true {
+		// a re-store: another writer hands in an equal datum for the same key
+		d, err := first.orig.Clone()
+		if err != nil {
+			r.t.Fatal(err)
+		}
+		k := first
+		k.put = false
+		c.keys[w] = k
+		return core.UnsignedDataSet{first.pk: d}
+	}
 	slot := uint64(1000 + 10*widx(w))
 	d, dt, _ := buildUnsigned(r.t, typ, verOf(r), n, slot)
 	pk := testutil.RandomCorePubKey(r.t)
@@ -126,6 +139,11 @@ func (c *dutydbC) New(r *run, w string) any {
 			k.subcomm, k.roots = append(k.subcomm, e.SubcommitteeIndex), append(k.roots, e.BeaconBlockRoot)
 		}
 	}
+	orig, err := d.Clone()
+	if err != nil {
+		r.t.Fatal(err)
+	}
+	k.orig, k.canon = orig, w
 	c.keys[w] = k
 	return core.UnsignedDataSet{pk: d}
 }
@@ -147,6 +165,7 @@ func (c *dutydbC) Get(r *run, p, of string, arg int) (any, string, bool, error) 
 	}
 	ctx, cancel := context.WithTimeout(r.ctx, 10*time.Second)
 	defer cancel()
+	of = k.canon
 	switch p {
 	case "AwaitAttestation":
 		ci := k.commIdx
@@ -244,6 +263,8 @@ type asW struct {
 	pk      core.PubKey
 	subcomm core.SubcommitteeIndex
 	put     bool
+	orig    core.SignedData // pristine copy (re-stored by later writers when cfg same=true)
+	canon   string
 }
 
 type aggsigC struct {
@@ -252,9 +273,24 @@ type aggsigC struct {
 }
 
 func (c *aggsigC) New(r *run, w string) any {
+	if first, ok := c.w["w1"]; ok && w != "w1" && r.cfg["same"] == true {
+		d, err := first.orig.Clone()
+		if err != nil {
+			r.t.Fatal(err)
+		}
+		k := first
+		k.put = false
+		c.w[w] = k
+		return core.SignedDataSet{first.pk: d}
+	}
 	d, dt, _ := buildSigned(r.t, drv.Str(r.cfg["typ"]), verOf(r), drv.Num(r.cfg["n"]))
 	k := asW{duty: core.Duty{Slot: uint64(3000 + 10*widx(w)), Type: dt}, pk: testutil.RandomCorePubKey(r.t)}
 	k.subcomm, _ = core.SyncSubcommitteeIndex(dt, d)
+	orig, err := d.Clone()
+	if err != nil {
+		r.t.Fatal(err)
+	}
+	k.orig, k.canon = orig, w
 	c.w[w] = k
 	return core.SignedDataSet{k.pk: d}
 }
@@ -279,7 +315,7 @@ func (c *aggsigC) Get(r *run, _, of string, _ int) (any, string, bool, error) {
 	ctx, cancel := context.WithTimeout(r.ctx, 10*time.Second)
 	defer cancel()
 	v, err := c.db.Await(ctx, k.duty, k.pk, k.subcomm)
-	return v, of, true, err
+	return v, k.canon, true, err
 }
 
 // ------------------------------------------------------------------------------------------------ SigAgg
